@@ -38,6 +38,11 @@ def cases(tier: str, seed: int) -> list[dict]:
             wa = GW.structured_world(conv, 2, 3, **({"bounds": True} if conv == "cf1d" else {"shape": "rect", "bounds": True}))
         worlds.append(GW.shifted(wa, 64 * 179, 0))
         worlds[-1]["via"] = "memory"
+    for conv in ("shoc_standard", "arakawa"):
+        wt = GW.structured_world(conv, 2, 3, shape="skew")
+        wt["x_transposed"] = ["face"]
+        wt["via"] = "memory"
+        worlds.append(wt)
     for w in worlds:
         CD.add_data_vars(w, rng, rich=False, odd_floats=True)
         nvalid_unknown = None
